@@ -55,7 +55,8 @@ def tree_hash(paths):
 
 def build_harness(name):
     """compile harness/<name>.cpp against /repo's current headers (content-addressed cache)"""
-    src = os.path.join(HERE, "harness", name + ".cpp")
+    base, _, flavour = name.partition("@")   # "h_driver@24": numeric_limits of sym::real mirror float
+    src = os.path.join(HERE, "harness", base + ".cpp")
     key = tree_hash([src, os.path.join(HERE, "sym"), os.path.join(REPO, "include")])
     exe = os.path.join(BUILD, "%s.%s" % (name, key))
     if os.path.exists(exe):
@@ -69,8 +70,8 @@ def build_harness(name):
             except OSError:
                 pass
     t0 = time.time()
-    extra = plan.HARNESS_FLAGS.get(name, [])
-    r = sh([CXX] + CXXFLAGS + extra + [src, "-o", exe + ".tmp", "-lz3"] + plan.HARNESS_LIBS.get(name, []))
+    extra = plan.HARNESS_FLAGS.get(base, []) + (["-DSYM_DIGITS=" + flavour] if flavour else [])
+    r = sh([CXX] + CXXFLAGS + extra + [src, "-o", exe + ".tmp", "-lz3"] + plan.HARNESS_LIBS.get(base, []))
     if r.returncode != 0:
         return None, time.time() - t0, r.stdout[-4000:]
     os.replace(exe + ".tmp", exe)
